@@ -1,41 +1,39 @@
 (* C15  Unused-variable warnings are exact and per-method.
 
-   Model: Model/UnusedVar.v (AstWalker + UnusedVarAnalyzer as they are; `key_today` = the map is
-   keyed by the spelling).  Specification on trees, guards and proofs: Proofs/UnusedVarProofs.v.
+   Model: Model/UnusedVar.v (AstWalker + UnusedVarAnalyzer as they are since /repo e5fd419 and
+   993bb42: `key_today` = upper-cased keys, the message prints the declared spelling, string-literal
+   terminals are skipped).  Specification on trees, guards and proofs: Proofs/UnusedVarProofs.v.
    Concrete trees (dumps of what the real parser builds): Proofs/UnusedVarWitness.v.
 
-   The statement of C15 is FALSE of the code in several ways; each way is a `_refuted` theorem
-   below with a witness that fails exactly one guard, and the statement is proved under the
-   conjunction of the guards (WFm).  The guards, per method m (WFmeth) and outside methods (WFtop):
-     WFtop   no method node / local declaration outside the top-level methods, and no terminal in a
-             declaration FOLLOWING a method that the analyser would charge to a local of that method
+   The statement of C15 is still FALSE of the code in several ways; each way is a `_refuted`
+   theorem below with a witness that fails exactly one guard (or, for the three constructs the tree
+   does not show, satisfies all of them), and the statement is proved under the conjunction of the
+   guards (WFm).  The guards, per method m (WFmeth) and outside methods (WFtop):
+     WFtop   no method node / local declaration outside the top-level methods, and no non-literal
+             terminal in a declaration FOLLOWING a method that the analyser would charge to a local of it
      G_flat  no method node inside a method
-     G_dup   no two local declarations of one method under the same key
+     G_dup   no two local declarations of one method under the same key (= differing in case only)
      G_order a local counted as used before its declaration is visited is also used after it
-     G_case  a terminal naming a local in another letter case has the same key (void when keys are upper-cased)
-     G_lit   a terminal counted as a use of a local is not a string literal
-     G_pos   a later operand of a '.' never has both the text and the start position of the first one *)
+     G_pos   a later operand of a '.' never has both the text and the start position of the first one
+   Repaired (the guards G_case and G_lit that excluded them are gone, the former witnesses are
+   regression examples below): a use in another letter case was not counted (e5fd419); the content
+   of a string literal counted as a use (993bb42). *)
 From Coq Require Import Permutation.
 From GoldV Require Import Base Tokens Lexer AstKinds Tree UnusedVar UnusedVarProofs UnusedVarWitness.
 
 (* ---- exactness ---- *)
 
-(* all trees, any key function that identifies at most case variants *)
+(* all trees, any key function that identifies exactly the case variants of a name *)
 Theorem C15_unused_exact :
   forall keyf file, key_ci keyf -> WFm keyf file ->
-  Permutation (unused_vars keyf file) (unused_spec keyf file).
+  Permutation (unused_vars keyf file) (unused_spec file).
 Proof. exact unused_exact. Qed.
 
 (* the code as it is *)
 Theorem C15_unused_exact_today :
   forall file, WFm key_today file ->
-  Permutation (unused_vars key_today file) (unused_spec key_today file).
+  Permutation (unused_vars key_today file) (unused_spec file).
 Proof. intros file. apply unused_exact. exact key_ci_today. Qed.
-
-(* with upper-cased keys the letter-case guard is not needed *)
-Theorem C15_unused_exact_upper :
-  forall file, WFm_nc upper file -> Permutation (unused_vars upper file) (unused_spec upper file).
-Proof. exact unused_exact_upper. Qed.
 
 (* guard-free: what the analyser reports for a method without nested method nodes, exactly:
    the first declaration of each key iff no counted use follows it *)
@@ -65,9 +63,9 @@ Proof. exact report_per_method. Qed.
 (* ---- placement (guard-free) ---- *)
 
 (* every diagnostic sits on the name token of a local declaration of the file; a warning prints
-   that declaration's key and is a WARNING, the other class is an ERROR *)
+   that declaration's spelling and is a WARNING, the other class is an ERROR *)
 Theorem C15_placement :
-  forall keyf file, Forall (diag_from keyf (fun e => In e (events file))) (analyze keyf file).
+  forall keyf file, Forall (diag_from (fun e => In e (events file))) (analyze keyf file).
 Proof. exact placement. Qed.
 
 Theorem C15_placement_token :
@@ -76,21 +74,23 @@ Proof. intros n t H. unfold ident_range. rewrite H. reflexivity. Qed.
 
 (* ---- renaming (guard-free) ---- *)
 
+(* applying an injective map f to every name (g = what f does to the keys) maps the names in the
+   warnings and changes nothing else *)
 Theorem C15_unused_rename :
   forall keyf f g file, injective f -> injective g -> (forall s, keyf (f s) = g (keyf s)) ->
-  analyze keyf (map_idents f file) = map (dmap g) (analyze keyf file).
+  analyze keyf (map_idents f file) = map (dmap f) (analyze keyf file).
 Proof. exact rename_equivariant. Qed.
 
-(* today's code: renaming a to a name b that does not occur in the file *)
+(* today's code (case-insensitive keys), an instance: every name gets a prefix *)
 Theorem C15_unused_rename_today :
-  forall a b file, ~ In b (idents file) ->
-  analyze key_today (map_idents (subst_name a b) file) = map (dmap (swap a b)) (analyze key_today file).
-Proof. exact rename_identity_keys. Qed.
+  forall c file,
+  analyze key_today (map_idents (prefix_name c) file) = map (dmap (prefix_name c)) (analyze key_today file).
+Proof. exact rename_prefix_upper. Qed.
 
 (* ---- the guards are decidable ---- *)
 
 Theorem C15_guards_checked :
-  forall keyf file, guard_flags keyf file = [true; true; true; true; true; true; true] -> WFm keyf file.
+  forall keyf file, guard_flags keyf file = [true; true; true; true; true] -> WFm keyf file.
 Proof. exact guard_flags_all. Qed.
 
 (* ---- non-vacuity: a real tree (class header, a field, a procedure with a parameter, three
@@ -105,7 +105,7 @@ Example C15_nonvacuous :
   WFm key_today w_ok /\
   length (flat_map local_decls (methods w_ok)) = 5%nat /\
   show (analyze key_today w_ok) = [(2, 0, 5, 5, [120]); (2, 0, 17, 5, [119])] /\
-  unused_vars key_today w_ok = unused_spec key_today w_ok.
+  unused_vars key_today w_ok = unused_spec w_ok.
 Proof.
   split; [apply guard_flags_all; vm_compute; reflexivity|]. vm_compute. repeat split; reflexivity.
 Qed.
@@ -125,46 +125,34 @@ Proof.
 Qed.
 
 Example C15_rename_nonvacuous :
-  ~ In [113] (idents w_ok) /\
-  show (analyze key_today (map_idents (subst_name [120] [113]) w_ok)) = [(2, 0, 5, 5, [113]); (2, 0, 17, 5, [119])].
-Proof.
-  split; [|vm_compute; reflexivity].
-  vm_compute. intro H. repeat (destruct H as [H|H]; [discriminate H|]). exact H.
-Qed.
+  show (analyze key_today (map_idents (prefix_name 113) w_ok)) = [(2, 0, 5, 5, [113; 120]); (2, 0, 17, 5, [113; 119])].
+Proof. vm_compute. reflexivity. Qed.
+
+(* ---- regression: the two repaired classes, on the trees of their former witnesses ---- *)
+
+(* `var x : int4` ... `X = 1`: the use in another letter case is counted (was R1, /repo e5fd419) *)
+Example C15_case_regression :
+  WFm key_today w_case /\ analyze key_today w_case = [] /\ unused_spec w_case = [].
+Proof. split; [apply guard_flags_all; vm_compute; reflexivity|]. vm_compute. split; reflexivity. Qed.
+
+(* `var s : int4` ... `foo('s')`: the content of a string literal is not a use (was R2, /repo 993bb42) *)
+Example C15_literal_regression :
+  WFm key_today w_lit /\ show (analyze key_today w_lit) = [(2, 0, 1, 5, [115])] /\
+  unused_vars key_today w_lit = unused_spec w_lit.
+Proof. split; [apply guard_flags_all; vm_compute; reflexivity|]. vm_compute. split; reflexivity. Qed.
 
 (* ---- refutations: the unguarded statement is false of the code; each witness fails exactly one
-        guard (flags: [WFtop; G_flat; G_dup; G_order; G_case; G_lit; G_pos]) ---- *)
+        guard (flags: [WFtop; G_flat; G_dup; G_order; G_pos]) ---- *)
 
 Ltac not_perm := let H := fresh in intro H; apply Permutation_length in H; vm_compute in H; discriminate H.
-
-(* R1  `var x : int4` ... `X = 1`: the use in another letter case is not counted *)
-Theorem C15_case_refuted :
-  exists file,
-    guard_flags key_today file = [true; true; true; true; false; true; true] /\
-    show (unused_vars key_today file) = [(2, 0, 1, 5, [120])] /\ unused_spec key_today file = [] /\
-    ~ Permutation (unused_vars key_today file) (unused_spec key_today file).
-Proof. exists w_case. repeat split; try (vm_compute; reflexivity). not_perm. Qed.
-
-(* ... and on that witness upper-cased keys repair it *)
-Theorem C15_case_repaired_by_upper :
-  WFm_nc upper w_case /\ unused_vars upper w_case = unused_spec upper w_case.
-Proof. split; [eapply guard_flags_nc; vm_compute; reflexivity|vm_compute; reflexivity]. Qed.
-
-(* R2  `var s : int4` ... `foo('s')`: the CONTENT of a string literal counts as a use *)
-Theorem C15_literal_refuted :
-  exists file,
-    guard_flags key_today file = [true; true; true; true; true; false; true] /\
-    unused_vars key_today file = [] /\ show (unused_spec key_today file) = [(2, 0, 1, 5, [115])] /\
-    ~ Permutation (unused_vars key_today file) (unused_spec key_today file).
-Proof. exists w_lit. repeat split; try (vm_compute; reflexivity). not_perm. Qed.
 
 (* R3  proc p (var x) / proc q / `memory f : int4 absolute x`: moving the field right after p
        silences p's warning: the report is NOT a function of the methods alone *)
 Theorem C15_per_method_refuted :
   exists file file',
     Permutation (nchildren file) (nchildren file') /\
-    guard_flags key_today file = [true; true; true; true; true; true; true] /\
-    guard_flags key_today file' = [false; true; true; true; true; true; true] /\
+    guard_flags key_today file = [true; true; true; true; true] /\
+    guard_flags key_today file' = [false; true; true; true; true] /\
     show (analyze key_today file) = [(2, 0, 1, 5, [120])] /\ analyze key_today file' = [] /\
     ~ Permutation (analyze key_today file) (analyze key_today file').
 Proof.
@@ -175,9 +163,9 @@ Qed.
 
 Theorem C15_trailing_refuted :
   exists file,
-    guard_flags key_today file = [false; true; true; true; true; true; true] /\
-    unused_vars key_today file = [] /\ show (unused_spec key_today file) = [(2, 0, 1, 5, [120])] /\
-    ~ Permutation (unused_vars key_today file) (unused_spec key_today file).
+    guard_flags key_today file = [false; true; true; true; true] /\
+    unused_vars key_today file = [] /\ show (unused_spec file) = [(2, 0, 1, 5, [120])] /\
+    ~ Permutation (unused_vars key_today file) (unused_spec file).
 Proof.
   exists (Node KAstRoot [] 0 range0 [] [w_trail_0; w_trail_2; w_trail_1]).
   repeat split; try (vm_compute; reflexivity). not_perm.
@@ -186,18 +174,18 @@ Qed.
 (* R4a  `x = 1` before `var x : int4`: a use that precedes the declaration is not counted *)
 Theorem C15_use_before_decl_refuted :
   exists file,
-    guard_flags key_today file = [true; true; true; false; true; true; true] /\
-    show (unused_vars key_today file) = [(2, 0, 2, 5, [120])] /\ unused_spec key_today file = [] /\
-    ~ Permutation (unused_vars key_today file) (unused_spec key_today file).
+    guard_flags key_today file = [true; true; true; false; true] /\
+    show (unused_vars key_today file) = [(2, 0, 2, 5, [120])] /\ unused_spec file = [] /\
+    ~ Permutation (unused_vars key_today file) (unused_spec file).
 Proof. exists w_order. repeat split; try (vm_compute; reflexivity). not_perm. Qed.
 
 (* R4b  `var x` twice: the second declaration gets the ERROR and is never reported unused *)
 Theorem C15_duplicate_refuted :
   exists file,
-    guard_flags key_today file = [true; true; false; true; true; true; true] /\
+    guard_flags key_today file = [true; true; false; true; true] /\
     show (analyze key_today file) = [(1, 1, 2, 5, []); (2, 0, 1, 5, [120])] /\
-    length (unused_spec key_today file) = 2%nat /\
-    ~ Permutation (unused_vars key_today file) (unused_spec key_today file).
+    length (unused_spec file) = 2%nat /\
+    ~ Permutation (unused_vars key_today file) (unused_spec file).
 Proof. exists w_dup. repeat split; try (vm_compute; reflexivity). not_perm. Qed.
 
 (* ---- the property read on the source text: three more ways in which it fails, invisible to the
@@ -207,35 +195,34 @@ Proof. exists w_dup. repeat split; try (vm_compute; reflexivity). not_perm. Qed.
 (* R5  `var x` ... `x(1)`: the name of a call is not a node of the tree: reported unused *)
 Theorem C15_callee_refuted :
   exists file,
-    guard_flags key_today file = [true; true; true; true; true; true; true] /\
-    show (unused_vars key_today file) = [(2, 0, 1, 5, [120])] /\ unused_spec_ext key_today file = [] /\
-    ~ Permutation (unused_vars key_today file) (unused_spec_ext key_today file).
+    guard_flags key_today file = [true; true; true; true; true] /\
+    show (unused_vars key_today file) = [(2, 0, 1, 5, [120])] /\ unused_spec_ext file = [] /\
+    ~ Permutation (unused_vars key_today file) (unused_spec_ext file).
 Proof. exists w_callee. repeat split; try (vm_compute; reflexivity). not_perm. Qed.
 
 (* R6  `var x` ... `for x = 1 to 3`: the counter of a for is a token of the for node: reported unused *)
 Theorem C15_for_counter_refuted :
   exists file,
-    guard_flags key_today file = [true; true; true; true; true; true; true] /\
-    show (unused_vars key_today file) = [(2, 0, 1, 5, [120])] /\ unused_spec_ext key_today file = [] /\
-    ~ Permutation (unused_vars key_today file) (unused_spec_ext key_today file).
+    guard_flags key_today file = [true; true; true; true; true] /\
+    show (unused_vars key_today file) = [(2, 0, 1, 5, [120])] /\ unused_spec_ext file = [] /\
+    ~ Permutation (unused_vars key_today file) (unused_spec_ext file).
 Proof. exists w_forctr. repeat split; try (vm_compute; reflexivity). not_perm. Qed.
 
 (* R7  `var x` ... `self.x[1] = 2`: the member name is the first child of the array access: counted as a use *)
 Theorem C15_indexed_member_refuted :
   exists file,
-    guard_flags key_today file = [true; true; true; true; true; true; true] /\
-    unused_vars key_today file = [] /\ show (unused_spec_ext key_today file) = [(2, 0, 1, 5, [120])] /\
-    ~ Permutation (unused_vars key_today file) (unused_spec_ext key_today file).
+    guard_flags key_today file = [true; true; true; true; true] /\
+    unused_vars key_today file = [] /\ show (unused_spec_ext file) = [(2, 0, 1, 5, [120])] /\
+    ~ Permutation (unused_vars key_today file) (unused_spec_ext file).
 Proof. exists w_indexed. repeat split; try (vm_compute; reflexivity). not_perm. Qed.
 
 (* where none of the three constructs occurs the two specifications coincide, e.g. on w_ok *)
 Example C15_spec_ext_nonvacuous :
-  unused_spec_ext key_today w_ok = unused_spec key_today w_ok /\ length (unused_spec key_today w_ok) = 2%nat.
+  unused_spec_ext w_ok = unused_spec w_ok /\ length (unused_spec w_ok) = 2%nat.
 Proof. vm_compute. split; reflexivity. Qed.
 
 Print Assumptions C15_unused_exact.
 Print Assumptions C15_unused_exact_today.
-Print Assumptions C15_unused_exact_upper.
 Print Assumptions C15_method_warnings_exactly.
 Print Assumptions C15_method_report_alone.
 Print Assumptions C15_report_decomposes.
@@ -248,9 +235,8 @@ Print Assumptions C15_guards_checked.
 Print Assumptions C15_nonvacuous.
 Print Assumptions C15_per_method_nonvacuous.
 Print Assumptions C15_rename_nonvacuous.
-Print Assumptions C15_case_refuted.
-Print Assumptions C15_case_repaired_by_upper.
-Print Assumptions C15_literal_refuted.
+Print Assumptions C15_case_regression.
+Print Assumptions C15_literal_regression.
 Print Assumptions C15_per_method_refuted.
 Print Assumptions C15_trailing_refuted.
 Print Assumptions C15_use_before_decl_refuted.
